@@ -366,7 +366,7 @@ func TestVerifC12(t *testing.T) {
 	vSharedCert()
 	quick := c.Quick()
 	exp := &vshExplorer{tb: t, c: c, oracle: c12Oracle, cover: c12Cover(c), probeEvery: true}
-	exp.stop = c.Deadline(time.Duration(c.Pick(24, 540)) * time.Second)
+	exp.stop = c.Deadline(time.Duration(c.Pick(20, 360)) * time.Second)
 	depth := c.Pick(3, 4)
 	alpha := c12Alphabet(false)
 	var cfgs []vshCfg
@@ -401,11 +401,6 @@ func TestVerifC12(t *testing.T) {
 		levels["unified+flexfec/unmerged"] = lv
 		if !done {
 			c.NotExhaustive("budget reached in the unmerged tree")
-		}
-		lv, done = exp.bfs(vshCfg{Sem: "unified"}, alpha, 5, true)
-		levels["unified/depth-5"] = lv
-		if !done {
-			c.NotExhaustive("budget reached in the depth-5 BFS")
 		}
 		exp2 := &vshExplorer{tb: t, c: c, oracle: c12Oracle, cover: c12Cover(c), probeEvery: false, stop: exp.stop}
 		lv, done = exp2.bfs(vshCfg{Sem: "unified"}, alpha, 4, true)
